@@ -109,6 +109,50 @@ def check(mid, checks, tier="quick", seed=None):
     return results
 
 
+SC_V = "/tmp/sc_verif"
+SC_R = "/tmp/sc_repo"
+
+
+def scratch_check(mid, checks, tier="quick"):
+    """Like check(), but against a scratch worktree of /repo and a scratch copy of /verif (own target dir), so that /repo's
+    working tree is never touched (usable while a long run is reading /repo)."""
+    d = os.path.join(SEEDED, mid)
+    meta = json.load(open(os.path.join(d, "meta.json")))
+    if not checks:
+        checks = meta.get("checks_to_run") or [meta["property"]]
+    if not os.path.isdir(SC_R):
+        rc, out = sh("git -C /repo worktree add --detach %s HEAD" % SC_R)
+        assert rc == 0, out
+    rc, head = sh("git -C /repo rev-parse HEAD")
+    rc, out = sh("git -C %s checkout -q --detach %s && git -C %s checkout -- ." % (SC_R, head.strip(), SC_R))
+    assert rc == 0, out
+    os.makedirs(SC_V, exist_ok=True)
+    rc, out = sh("rsync -a --delete --exclude target --exclude .git --exclude replays --exclude evidence --exclude seeded %s/ %s/" % (V, SC_V))
+    assert rc == 0, out
+    os.makedirs(SC_V + "/evidence", exist_ok=True); os.makedirs(SC_V + "/replays", exist_ok=True)
+    sh("grep -rl '/repo' %s/oracle %s/harness/Cargo.toml %s/tools | xargs sed -i 's#/repo#%s#g'" % (SC_V, SC_V, SC_V, SC_R))
+    rc, out = sh("git -C %s apply %s" % (SC_R, os.path.join(d, "patch.diff")))
+    assert rc == 0, out
+    results = {}
+    try:
+        for c in checks:
+            t0 = time.time()
+            rc, out = sh("./check %s --tier %s" % (c, tier), cwd=SC_V, timeout=7200)
+            viol = [l for l in out.split("\n") if l.startswith("VIOLATION") or "violation summary" in l or l.startswith("INCONCLUSIVE")]
+            first = [l for l in out.split("\n") if l.strip().startswith("violation config")][:2]
+            results[c] = dict(exit=rc, detected=(rc == 1), wall_s=round(time.time() - t0, 1), lines=(viol[:3] + first)[:5], scratch=True)
+            print(mid, c, "exit", rc, "DETECTED" if rc == 1 else ("inconclusive" if rc == 2 else "MISSED"), flush=True)
+            if rc == 2:
+                print(out[-1500:])
+    finally:
+        sh("git -C %s checkout -- ." % SC_R)
+    meta.setdefault("runs", {})
+    meta["runs"].setdefault(tier, {}).update(results)
+    meta["detected_by"] = sorted(set(meta.get("detected_by", [])) | {c for c, r in results.items() if r["detected"]})
+    json.dump(meta, open(os.path.join(d, "meta.json"), "w"), indent=1)
+    return results
+
+
 def main():
     a = sys.argv[1:]
     tier = "quick"
@@ -118,6 +162,8 @@ def main():
         print(json.dumps(confirm(a[1], a[2]), indent=1))
     elif a[0] == "check":
         check(a[1], a[2:], tier)
+    elif a[0] == "scheck":
+        scratch_check(a[1], a[2:], tier)
     elif a[0] == "all":
         for mid in sorted(os.listdir(SEEDED)):
             if os.path.exists(os.path.join(SEEDED, mid, "patch.diff")):
